@@ -17,7 +17,7 @@ import math
 from types import SimpleNamespace
 
 from .. import astutil as A
-from ..dispatch import body_raises, find_chains, first_match
+from ..dispatch import body_raises, find_chains, first_match, unknown_subclasses_rejected
 from ..guards import MISSING, Interp, Raised, Unsupported, region_reps
 from ..loader import AnalysisError
 
@@ -351,4 +351,6 @@ def _dispatch_tables(ctx, rep) -> None:
         last = chain[-1]
         ok = last.kind == "else" and body_raises(repo, fi.module, last.body) == "NotImplementedError"
         rep.ob("C17.4", f"{meth}/fall-through", ok, fi.loc(last.node), "unsupported config types must reach `raise NotImplementedError`", sample=True)
+        bad = unknown_subclasses_rejected(repo, fi.module, chain, repo.concrete_subclasses(base))
+        rep.ob("C17.4", f"{meth}/unknown-subclasses-rejected", not bad, fi.loc(), "a config object of an unknown (user-defined) subclass must reach `raise NotImplementedError`; with isinstance-style arms it is silently treated as its base" + (f": {bad[:3]}" if bad else ""), sample=True)
         rep.floor("C17.4", meth, n, 2)
